@@ -58,8 +58,14 @@ func (vc *VC) instr(ins ssa.Instruction) {
 		// pseudo-site "store:T.f": contracts may say what is written into a field ("site store:Task.Silent#1
 		// requires arg1 == origTask.Silent"; arg0 is the object, arg1 the value), evaluated in the state AT the store
 		if n := storeSiteName(ins); n != "" && vc.fc != nil && len(vc.fc.Sites) > 0 {
-			fa := ins.Addr.(*ssa.FieldAddr)
-			args := map[string]sval{"arg0": {term: vc.val(fa.X), typ: fa.X.Type()}, "arg1": {term: vc.val(ins.Val), typ: ins.Val.Type()}}
+			var obj ssa.Value
+			switch a := ins.Addr.(type) {
+			case *ssa.FieldAddr:
+				obj = a.X
+			case *ssa.IndexAddr:
+				obj = a.X
+			}
+			args := map[string]sval{"arg0": {term: vc.val(obj), typ: obj.Type()}, "arg1": {term: vc.val(ins.Val), typ: ins.Val.Type()}}
 			ord := vc.ordinalOf(ins, n)
 			vc.siteClauses(n, ord, "site-requires", args, ins.Pos())
 			vc.store(ins.Addr, vc.val(ins.Val), ins.Val.Type(), ins.Pos())
@@ -1130,8 +1136,11 @@ func (vc *VC) mapUpdate(ins *ssa.MapUpdate) {
 	vc.guardedUse(ins.Map, ins.Pos(), "map-write")
 	x, k, v := vc.val(ins.Map), vc.val(ins.Key), vc.val(ins.Value)
 	// pseudo-site "mapstore": contracts may say when a map entry may be written ("site mapstore#1 requires ...")
-	vc.siteClauses("mapstore", vc.ordinalOf(ins, "mapstore"), "site-requires", map[string]sval{
-		"arg0": {term: x, typ: ins.Map.Type()}, "arg1": {term: k, typ: ins.Key.Type()}, "arg2": {term: v, typ: ins.Value.Type()}}, ins.Pos())
+	msArgs := map[string]sval{
+		"arg0": {term: x, typ: ins.Map.Type()}, "arg1": {term: k, typ: ins.Key.Type()}, "arg2": {term: v, typ: ins.Value.Type()}}
+	msOrd := vc.ordinalOf(ins, "mapstore")
+	vc.siteClauses("mapstore", msOrd, "site-requires", msArgs, ins.Pos())
+	defer vc.siteClauses("mapstore", msOrd, "site-post", msArgs, ins.Pos()) // "site mapstore#N ghost ..." after the write
 	vc.obligeSafety("nil-map-store", fmt.Sprintf("(not (= %s 0))", x), ins.Pos())
 	vc.frameCheckMap(ins)
 	d, vk := vc.mapKeys(m)
@@ -1287,6 +1296,22 @@ func (vc *VC) panicInstr(ins *ssa.Panic) {
 
 // storeSiteName: "store:T.f" for a store to field f of a struct of the (package-local name of) type T.
 func storeSiteName(ins *ssa.Store) string {
+	if ia, isIdx := ins.Addr.(*ssa.IndexAddr); isIdx {
+		// "store:[]T": an element of a slice (or array) of T is overwritten in place
+		switch u := ia.X.Type().Underlying().(type) {
+		case *types.Slice:
+			return "store:[]" + shortTypeName(shortType(u.Elem()))
+		case *types.Pointer:
+			// (not the array a slice literal or an argument list is being built in)
+			if _, building := ia.X.(*ssa.Alloc); building {
+				return ""
+			}
+			if at, isArr := u.Elem().Underlying().(*types.Array); isArr {
+				return "store:[]" + shortTypeName(shortType(at.Elem()))
+			}
+		}
+		return ""
+	}
 	fa, ok := ins.Addr.(*ssa.FieldAddr)
 	if !ok {
 		return ""
@@ -1406,8 +1431,12 @@ func (vc *VC) sharedWritten(al *ssa.Alloc) []*ssa.MakeClosure {
 				continue
 			}
 			fn := mc.Fn.(*ssa.Function)
-			if fn.Synthetic != "" {
-				continue // the body of a range-over-func loop: run by the iterator, inside the loop statement
+			if fn.Synthetic != "" && (al.Comment == "" || strings.Contains(al.Comment, "$")) {
+				// the body of a range-over-func loop. A VARIABLE OF THE PROGRAM that it writes is unknown after the
+				// loop statement (the call of the iterator), like any local written by a callback. The control cells
+				// the compiler adds for a return / break out of the body (jump$N, the result cells) keep their
+				// values: a return from inside such a body is not followed into the enclosing function (§6).
+				continue
 			}
 			w := false
 			for i, b := range mc.Bindings {
